@@ -208,6 +208,7 @@ func c30History(x *simkit.Exec) {
 		}
 		marked := map[ulid.ULID]bool{}
 		for _, b := range blocks {
+			bkt.Canon(b.spec.ID.String())
 			put(b.spec)
 			if b.noCompact {
 				marked[b.spec.ID] = true
@@ -219,8 +220,8 @@ func c30History(x *simkit.Exec) {
 		h := bkt.Handle("compactor")
 		name := func(id ulid.ULID) string { return bkt.Canon(id.String()) }
 		s.Go("planner", func() {
-			noComp := compact.NewGatherNoCompactionMarkFilter(log.NewNopLogger(), h, 2)
-			base, err := block.NewBaseFetcher(log.NewNopLogger(), 2, h, block.NewConcurrentLister(log.NewNopLogger(), h), "", prometheus.NewRegistry())
+			noComp := compact.NewGatherNoCompactionMarkFilter(log.NewNopLogger(), h, 32)
+			base, err := block.NewBaseFetcher(log.NewNopLogger(), 32, h, block.NewConcurrentLister(log.NewNopLogger(), h), "", prometheus.NewRegistry())
 			if err != nil {
 				x.Troublef("fetcher: %v", err)
 				return
